@@ -30,7 +30,7 @@ package syslogparser
 //@     passN(p) < 4611686018427387904 && passB(p) < 4611686018427387904 && dropN(p) < 4611686018427387904 && dropB(p) < 4611686018427387904
 
 //@ func (parser *syslogParser) onMalformed(record *base.LogRecord, warning string, rawLog []byte)
-//@   requires validparser(parser) && countersmall(parser) && record != nil && record._refCount >= 1 && record.RawLength >= 0
+//@   requires validparser(parser) && countersmall(parser) && record != nil && record._refCount >= 1 && record.RawLength >= 0 && record.RawLength < 2147483648
 //@   requires len(record.Fields) == parser.allocator.nfields
 //@   requires record._backbuf != nil ==> exists k int :: 0 <= k && k < 32 && len(*record._backbuf) == util.pow2(k)
 //@   modifies record._refCount, record.RawLength, record.Timestamp, record._backbuf, record.Fields[:]
